@@ -158,6 +158,11 @@ class FGen:
             return ["+", ["var", rng.choice(same)], ["*", self.num_leaf(sc), ["var", rng.choice(same)]]]
         if r < 0.8:
             return ["-", ["var", rng.choice(same)], ["var", rng.choice(same)]]
+        if length == 4 and r < 0.92:
+            a, b = rng.choice(same), rng.choice(same)
+            if rng.random() < 0.5:
+                return ["call", "<builtin>matmul", [["var", a], ["var", b], ["num", 2], ["num", 2]], {}]
+            return ["call", "<builtin>transpose", [["var", a], ["num", 2]], {}]
         return ["call", "<builtin>elementwise_abs", [["var", rng.choice(same)]], {}]
 
     # -- statements
@@ -176,6 +181,25 @@ class FGen:
         while budget[0] > 0:
             budget[0] -= 1
             r = rng.random()
+            if self.memory_bias and self.allow_end and not in_cond and rng.random() < 0.12:
+                # the adaptive pattern: a user-type temporary is made, the step may fail / switch, and the
+                # temporary's last use is an unguarded statement AFTER the possible early exit
+                tid = rng.choice(sorted(set(sc["uts"].values())))
+                same = [u for u, t in sc["uts"].items() if t == tid]
+                tmp = rng.choice(["ynew", "yalt"]) + ("2" if tid != VT else "")
+                ops.append(["assign", tmp, None,
+                            ["+", ["var", rng.choice(same)], ["*", ["var", "<dt>"], ["var", rng.choice(same)]]], [], 0])
+                sc["uts"][tmp] = tid
+                thr = rng.choice([1.0, 1.75, 2.25, 0.25])
+                cond = ["cmp", rng.choice([">", "<"]), ["var", "<state>s"], ["num", thr]]
+                end = rng.choice([["fail"], ["switch", rng.choice(names)], ["restart"]])
+                pre = []
+                if rng.random() < 0.5:
+                    pre = [["assign", "<dt>", None, ["*", ["var", "<dt>"], ["num", 0.5]], [], 0]]
+                ops.append(["if", cond, pre + [end], [], None, 0])
+                tgt = [u for u, t in persist["uts"].items() if t == tid]
+                ops.append(["assign", rng.choice(tgt), None, ["var", tmp], [], 0])
+                continue
             if self.memory_bias and rng.random() < 0.45:
                 r = 0.3 + 0.25 * rng.random()     # user-type traffic
             if r < 0.03:
@@ -184,6 +208,19 @@ class FGen:
                 if len(cands) >= 2:
                     a, b = rng.sample(cands, 2)
                     ops.append(["call", [a, b], "<func>sf2", [["var", a], ["var", b]], {}, self.s()])
+                continue
+            if r < 0.06:
+                # looped assignment to a scalar: 'w <- w + 0.25*i [i=0..n]' and mirrored spellings
+                cands = [n for n in sc["nums"] if n not in ("<t>", "<dt>", "nb", "mb")]
+                if cands:
+                    w = rng.choice(cands)
+                    c = rng.choice(["i", "j"])
+                    lo = rng.randint(0, 1)
+                    hi = rng.choice([lo, lo + 1, lo + 3, 4])
+                    k = ["num", rng.choice([0.25, 0.5, 1.5, -0.5])]
+                    term = rng.choice([["*", k, ["var", c]], ["*", ["var", c], k], ["/", ["var", c], ["num", 4]]])
+                    rhs = ["+", ["var", w], term] if rng.random() < 0.7 else term
+                    ops.append(["assign", w, None, rhs, [[c, ["num", lo], ["num", hi]]], self.s(rhs)])
                 continue
             if r < 0.2:
                 rhs = self.num_expr(sc, rng.choice([1, 2, 2, 3]))
@@ -236,7 +273,8 @@ class FGen:
                 lhs = rng.choice(["a2", "b2"])
                 if rhs[0] == "call":
                     ops.append(["call", [lhs], rhs[1], rhs[2], rhs[3], self.s(*rhs[2])])
-                    self.onebased.add(lhs)
+                    if rhs[1] == "<builtin>elementwise_abs":
+                        self.onebased.add(lhs)
                 else:
                     ops.append(["assign", lhs, None, rhs, [], self.s(rhs)])
                     pass      # (not path-sensitive: once one-based, always treated as such)
